@@ -189,7 +189,9 @@ def build_program(items):
     """items: list of (needs list, vals) -> program with one framer per item using private shares"""
     inits = []
     framers = []
-    for i, (needs, vals) in enumerate(items):
+    for i, item in enumerate(items):
+        needs, vals = item[0], item[1]
+        form = item[2] if len(item) > 2 else "go"
         ren = {}
         for p, v in vals.items():
             q = ".q%d.%s" % (i, p.split(".")[-1])
@@ -205,6 +207,13 @@ def build_program(items):
             if n.get("re") == "SELF":
                 n["re"] = "m%d" % i
             ns.append(n)
+        if form == "aux":
+            # the same condition as the condition of a conditional auxiliary: started at its first evaluation iff it holds
+            framers.append({"name": "m%d" % i, "sched": "active", "order": None, "period": None, "first": None,
+                            "frames": [{"name": "a", "over": None, "acts": [{"kind": "aux", "name": "x%d" % i, "needs": ns}]}]})
+            framers.append({"name": "x%d" % i, "sched": "aux", "order": None, "period": None, "first": None,
+                            "frames": [{"name": "xa", "over": None, "acts": []}]})
+            continue
         framers.append({"name": "m%d" % i, "sched": "active", "order": None, "period": None, "first": None,
                         "frames": [{"name": "a", "over": None, "acts": [{"kind": "go", "far": "b", "needs": ns}]},
                                    {"name": "b", "over": None, "acts": []}]})
@@ -222,13 +231,25 @@ def run_items(items):
     if tr.get("exc"):
         return [("run-exception-%s" % tr["exc"], "Skedder.run raised %s %s\n%s" % (tr["exc"], tr.get("exc_detail"), text))], []
     got = {}
+    started = set()
     for t, i, e in all_events(tr):
         if t == 1 and e[0] == "act" and e[5] == "go":
             got.setdefault(e[1], e[6])
+        if t == 1 and e[0] == "f" and e[3] == "enter" and e[1].startswith("x"):
+            started.add(e[1])
     obs = []
-    for i, (needs, vals) in enumerate(items):
+    for i, item in enumerate(items):
+        needs, vals = item[0], item[1]
         exp = all(truth(n, vals) for n in needs)
         g = got.get("m%d" % i)
+        if len(item) > 2 and item[2] == "aux":
+            g = ("x%d" % i) in started
+            obs.append(g)
+            if g != exp:
+                fails.append(("wrong-conjunction-as-aux-condition" if len(needs) > 1 else "wrong-aux-condition",
+                              "`aux x%d if %s` with %r: the auxiliary was %s at the first evaluation, the written condition is %r" % (
+                                  i, A.render_needs(needs), vals, "started" if g else "not started", exp)))
+            continue
         obs.append(g)
         if g is None:
             fails.append(("not-evaluated", "clause %r never evaluated at tick 1" % (needs,)))
@@ -340,14 +361,15 @@ def work(shard, seed, tier):
                 elif "state" not in c:
                     vals.setdefault(".q.g%d" % j, 0)
                 needs.append(c)
-            items.append([needs, vals])
+            items.append([needs, vals, draw(st.sampled_from(["go", "go", "aux"]))])
         return items
 
     def execute(items):
-        fails, obs = run_items([(n, v) for n, v in items])
-        nt = any(len(n) > 1 for n, v in items)
-        return Outcome(fails, nontrivial=nt, classes=["conjunctions"], key=items,
-                       sample={"conditions": [A.render_needs(n) for n, v in items[:4]]})
+        fails, obs = run_items([tuple(it) for it in items])
+        nt = any(len(it[0]) > 1 for it in items)
+        return Outcome(fails, nontrivial=nt, classes=["conjunctions"] + (["conjunction-as-conditional-aux-condition"]
+                                                                         if any(it[2] == "aux" and len(it[0]) > 1 for it in items) else []),
+                       key=items, sample={"conditions": [A.render_needs(it[0]) for it in items[:4]]})
     campaign(acc, conj(), execute, shard["count"], seed * 1000 + shard["i"], to_case=lambda it: {"items": it})
     return acc
 
@@ -355,12 +377,12 @@ def work(shard, seed, tier):
 def replay(case):
     if "clone" in case:
         return CG.check(case["clone"])[0]
-    fails, obs = run_items([(n, v) for n, v in case["items"]])
+    fails, obs = run_items([tuple(it) for it in case["items"]])
     return fails
 
 
 RULE = ("full table of single clauses (6 operators x not x int/float/negative/zero/string/bool states x goal on/below/above the state x direct/indirect goal x "
-        "tolerance none/0/0.5/-0.5; decimal states on / inside / outside the edge of decimal tolerance bands; explicitly written state and goal fields (`sf in path`) of multi-field shares; elapsed/recurred clocks in the bare and the `re [me|framer]` spelling with direct/indirect goal and tolerance; bare truthiness) + Hypothesis conjunctions of 1-3 clauses; each clause is a `go b if ..` whose "
+        "tolerance none/0/0.5/-0.5; decimal states on / inside / outside the edge of decimal tolerance bands; explicitly written state and goal fields (`sf in path`) of multi-field shares; elapsed/recurred clocks in the bare and the `re [me|framer]` spelling with direct/indirect goal and tolerance; bare truthiness) + Hypothesis conjunctions of 1-3 clauses (a third of them written as the condition of a conditional auxiliary, `aux x if ..`, started iff it holds); each clause is a `go b if ..` whose "
         "outcome at its first evaluation is compared with direct evaluation of the written comparison; clock conditions written inside a CLONED framer (`aux moot as mine|tag`): "
         "the tick at which the clone leaves the frame vs exact evaluation on the clone's own clocks. non-trivial = negated, conjunction, clock, or goal "
         "within 0.5 of the state (boundary); distinct = distinct (condition text, share values)")
